@@ -23,6 +23,7 @@ import (
 	"runtime/debug"
 	"sort"
 	"strings"
+	"testing/iotest"
 	"time"
 	"unsafe"
 
@@ -246,6 +247,7 @@ func limArgOld(lim int) uint32 {
 //	-4  the data ends with io.ErrUnexpectedEOF instead of io.EOF (a reader stacked on a framed one)
 //	-5  the data ends with a foreign error, reported together with the last bytes (n > 0, err)
 //	-6  one byte per Read, the data ends with a foreign error
+//	-7..-13  standard readers (see newSource);  <= -20  sentinel errors at the end (see endErrs)
 //
 // How the source ends is not compared (error identity is open): every kind is "no more bytes".
 type chunkSrc struct {
@@ -258,14 +260,74 @@ type chunkSrc struct {
 
 var errBoom = errors.New("source failed")
 
+// endErrs: how a source may end - every exported error of the packages on either side of ReaderX
+// (io, bytes, bytex itself), plain and wrapped.  Code -20-2i ends with endErrs[i] after the last
+// bytes, -21-2i together with them.
+var endErrs = []error{
+	io.EOF, io.ErrUnexpectedEOF, io.ErrShortBuffer, io.ErrNoProgress, io.ErrShortWrite, io.ErrClosedPipe,
+	bytes.ErrTooLarge, bytex.ErrByteBufferEmpty, bytex.ErrReadWrongNum, bytex.ErrSizeLimit,
+	fmt.Errorf("wrapped: %w", io.EOF), fmt.Errorf("wrapped: %w", io.ErrUnexpectedEOF),
+	fmt.Errorf("wrapped: %w", bytex.ErrSizeLimit),
+}
+
 func (c *chunkSrc) endErr() error {
-	switch c.k {
-	case -4:
+	switch {
+	case c.k == -4:
 		return io.ErrUnexpectedEOF
-	case -5, -6:
+	case c.k == -5, c.k == -6:
 		return errBoom
+	case c.k <= -20:
+		return endErrs[((-c.k-20)/2)%len(endErrs)]
 	}
 	return io.EOF
+}
+
+func (c *chunkSrc) withData() bool {
+	return c.k == -2 || c.k == -5 || (c.k <= -20 && (-c.k)%2 == 1)
+}
+
+// source is what a ReaderX is put on: the reader itself (of its own dynamic kind - a ReaderX may
+// look at it), and how far it has got (for the harness's own bookkeeping only).
+type source struct {
+	rd   io.Reader
+	rest func() []byte
+}
+
+// skip lets the source pass n bytes (ReaderX has no varint readers)
+func (q *source) skip(n int) {
+	_, _ = io.CopyN(io.Discard, q.rd, int64(n))
+}
+
+// Codes -7..-13: the standard library's readers over the same bytes.
+func newSource(data []byte, k int, rng *rand.Rand) *source {
+	tail := func(left int) []byte { return data[len(data)-left:] }
+	switch k {
+	case -7:
+		r := bytes.NewReader(data)
+		return &source{rd: r, rest: func() []byte { return tail(r.Len()) }}
+	case -8:
+		r := strings.NewReader(string(data))
+		return &source{rd: r, rest: func() []byte { return tail(r.Len()) }}
+	case -9:
+		c := &chunkSrc{data: data, k: -1, rng: rng}
+		r := bufio.NewReaderSize(c, 16)
+		return &source{rd: r, rest: func() []byte { return data[c.pos-r.Buffered():] }}
+	case -10:
+		r := bytes.NewReader(data)
+		return &source{rd: iotest.OneByteReader(r), rest: func() []byte { return tail(r.Len()) }}
+	case -11:
+		r := bytes.NewReader(data)
+		return &source{rd: iotest.HalfReader(r), rest: func() []byte { return tail(r.Len()) }}
+	case -12:
+		h := len(data) / 2
+		r1, r2 := bytes.NewReader(data[:h]), bytes.NewReader(data[h:])
+		return &source{rd: io.MultiReader(r1, r2), rest: func() []byte { return tail(r1.Len() + r2.Len()) }}
+	case -13:
+		r := bytes.NewBuffer(append([]byte{}, data...)) // a bytes.Buffer consumes its slice: own copy
+		return &source{rd: r, rest: func() []byte { return tail(r.Len()) }}
+	}
+	c := &chunkSrc{data: data, k: k, rng: rng}
+	return &source{rd: c, rest: func() []byte { return data[c.pos:] }}
 }
 
 func (c *chunkSrc) Read(p []byte) (int, error) {
@@ -295,7 +357,7 @@ func (c *chunkSrc) Read(p []byte) (int, error) {
 	}
 	copy(p, c.data[c.pos:c.pos+n])
 	c.pos += n
-	if (c.k == -2 || c.k == -5) && c.pos == len(c.data) {
+	if c.withData() && c.pos == len(c.data) {
 		return n, c.endErr() // io.Reader may report the end together with the last bytes
 	}
 	return n, nil
@@ -516,7 +578,7 @@ func readB(b *bytex.BufferX, a act) ans {
 				x, err := b.ZReadN(a.N)
 				return mk(a.T, 0, append([]byte{}, x...), err)
 			case "p":
-				p := make([]byte, a.N)
+				p := outBuf(a.N)
 				err := b.Read(p)
 				return mk(a.T, 0, p, err)
 			}
@@ -575,7 +637,7 @@ func readX(x *bytex.ReaderX, a act) ans {
 				v, err := x.ZReadN(a.N)
 				return mk(a.T, 0, append([]byte{}, v...), err)
 			case "p":
-				p := make([]byte, a.N)
+				p := outBuf(a.N)
 				err := x.Read(p)
 				return mk(a.T, 0, p, err)
 			}
@@ -647,38 +709,43 @@ type written struct {
 }
 
 type sess struct {
-	k     *sink
-	rng   *rand.Rand
-	arb   bool
-	W     *bytex.BufferX // the buffer written to
-	items []written      // bookkeeping for choosing reads and rewrite positions (never an oracle)
-	image []byte         // the written bytes, fixed at the first open
-	b     *bytex.BufferX // buffer reader
-	xs    []*bytex.ReaderX
-	srcs  []*chunkSrc
-	phase string // "w" | "r"
-	midrw bool
-	self  bool
-	c     int    // bytes given to the readers at the last open (+ what was written behind them since)
-	wtot  int    // bytes written in this lifetime
-	priv  []byte // private copy of image: the readers share `image` itself and must not change it
+	k      *sink
+	rng    *rand.Rand
+	arb    bool
+	W      *bytex.BufferX // the buffer written to
+	items  []written      // bookkeeping for choosing reads and rewrite positions (never an oracle)
+	image  []byte         // the written bytes, fixed at the first open
+	b      *bytex.BufferX // buffer reader
+	xs     []*bytex.ReaderX
+	srcs   []*source
+	lastIn []byte // the slice handed to the latest raw write
+	phase  string // "w" | "r"
+	midrw  bool
+	self   bool
+	c      int    // bytes given to the readers at the last open (+ what was written behind them since)
+	wtot   int    // bytes written in this lifetime
+	priv   []byte // private copy of image: the readers share `image` itself and must not change it
 }
 
 // every constructor, sizes from nothing to more than a history writes
-func newBuffer(rng *rand.Rand) *bytex.BufferX {
+// (the second result is the capacity the buffer was built with: histories fill it exactly)
+func newBuffer(rng *rand.Rand) (*bytex.BufferX, int) {
 	switch rng.Intn(8) {
 	case 0:
-		return bytex.NewSizedBufferX(rng.Intn(40)) // forces growth and data moves
+		n := rng.Intn(40)
+		return bytex.NewSizedBufferX(n), n // forces growth and data moves
 	case 1:
-		return bytex.NewSizedBufferX([]int{0, 1, 2, 4096}[rng.Intn(4)])
+		n := []int{0, 1, 2, 4096}[rng.Intn(4)]
+		return bytex.NewSizedBufferX(n), n
 	case 2:
-		return bytex.NewReadableBufferX(make([]byte, 0))
+		return bytex.NewReadableBufferX(make([]byte, 0)), 0
 	case 3:
-		return bytex.NewReadableBufferX(nil)
+		return bytex.NewReadableBufferX(nil), 0
 	case 4:
-		return bytex.NewReadableBufferX(make([]byte, 0, rng.Intn(64)))
+		n := rng.Intn(64)
+		return bytex.NewReadableBufferX(make([]byte, 0, n)), n
 	}
-	return bytex.NewBufferX()
+	return bytex.NewBufferX(), 1024
 }
 
 // start begins one buffer lifetime (one trace) on the BufferX W: a new one, or one that earlier
@@ -709,10 +776,41 @@ func (s *sess) total() int {
 // doWrite: one typed write to the buffer being written - or, while everything is being read back,
 // to the buffer being read (the item queues behind the unread ones; the stream readers, which were
 // given the old bytes, are dropped).
+// outBuf: the caller's buffer for Read(p); a zero-length one is nil every other time
+func outBuf(n int) []byte {
+	if n == 0 {
+		if limSalt++; limSalt%2 == 0 {
+			return nil
+		}
+	}
+	return make([]byte, n)
+}
+
+// writeSame: the caller fills the slice it passed to the previous raw write again (here: with
+// what it holds now) and writes it once more - the same argument twice.
+func (s *sess) writeSame() {
+	if len(s.lastIn) == 0 {
+		return
+	}
+	s.doWriteIn(val{t: "raw", b: append([]byte{}, s.lastIn...)}, -1, s.lastIn)
+}
+
 func (s *sess) doWrite(v val, lim int) {
+	in := append([]byte{}, v.b...)
+	if len(in) == 0 {
+		if limSalt++; limSalt%2 == 0 {
+			in = nil // Write(nil), WriteString("") with nothing behind it
+		}
+	}
+	s.doWriteIn(v, lim, in)
+}
+
+func (s *sess) doWriteIn(v val, lim int, in []byte) {
 	t := s.target()
 	before := t.Len()
-	in := append([]byte{}, v.b...)
+	if v.t == "raw" {
+		s.lastIn = in
+	}
 	var ok bool
 	var pan int
 	var msg string
@@ -779,6 +877,11 @@ func (s *sess) doRewrite(kind string, pos int, p []byte, v uint32) {
 	}
 	pan, msg := 0, ""
 	in := append([]byte{}, p...)
+	if len(in) == 0 && kind == "p" {
+		if limSalt++; limSalt%2 == 0 {
+			in = nil
+		}
+	}
 	if watch(func() {
 		defer func() {
 			if x := recover(); x != nil {
@@ -860,8 +963,8 @@ func (s *sess) doOpen(c int, ks []int, self bool) {
 	s.xs = s.xs[:0]
 	s.srcs = s.srcs[:0]
 	for _, k := range ks {
-		src := &chunkSrc{data: s.image[:c:c], k: k, rng: rand.New(rand.NewSource(s.rng.Int63()))}
-		s.xs = append(s.xs, bytex.NewReaderX(src))
+		src := newSource(s.image[:c:c], k, rand.New(rand.NewSource(s.rng.Int63())))
+		s.xs = append(s.xs, bytex.NewReaderX(src.rd))
 		s.srcs = append(s.srcs, src)
 	}
 	s.phase = "r"
@@ -902,7 +1005,7 @@ func (s *sess) doRead(a act) bool {
 			huge = true
 		}
 		for _, src := range s.srcs {
-			if rest := src.data[src.pos:]; len(rest) >= 4 && le32(rest) > 1<<20 {
+			if rest := src.rest(); len(rest) >= 4 && le32(rest) > 1<<20 {
 				huge = true
 			}
 		}
@@ -917,10 +1020,7 @@ func (s *sess) doRead(a act) bool {
 		// ReaderX has no varint readers: the sources skip what the buffer reader consumed
 		if rb.ok {
 			for _, src := range s.srcs {
-				src.pos += lenBefore - rb.rem
-				if src.pos > len(src.data) {
-					src.pos = len(src.data)
-				}
+				src.skip(lenBefore - rb.rem)
 			}
 		}
 	} else {
@@ -938,6 +1038,15 @@ func (s *sess) doRead(a act) bool {
 			"a": tr.E{"op": "rd", "t": a.T, "lim": a.Lim, "n": a.N, "via": a.Via},
 			"r": tr.E{"b": ansE(rb, true), "x": xr, "srcmut": srcmut}}
 	})
+	if !s.k.lazy && a.T == "raw" && a.Via == "n" {
+		// what ReadN returned is the caller's: it overwrites it and appends into it, and goes on reading
+		for _, r := range append([]ans{rb}, xa...) {
+			for i := range r.bs {
+				r.bs[i] ^= 0x5a
+			}
+			_ = append(r.bs[:0], 0xee, 0xee, 0xee, 0xee, 0xee, 0xee, 0xee, 0xee, 0xee)
+		}
+	}
 	return rb.ok
 }
 
@@ -1035,12 +1144,17 @@ func runPlan(k *sink, rng *rand.Rand, name string, p []act, W *bytex.BufferX, ho
 // ---------------------------------------------------------------------------------------------
 // seeded histories
 
-var chunkMenu = []int{1, 1, 2, 3, 4, 5, 7, 8, 9, 16, 0, 0, -1, -1, -2, -3, -4, -5, -6}
+var chunkMenu = []int{1, 1, 2, 3, 4, 5, 7, 8, 9, 16, 0, 0, -1, -1, -2, -3, -4, -5, -6,
+	-7, -8, -9, -10, -11, -12, -13, -20, -20, -20}
 
 func randKs(rng *rand.Rand, n int) []int {
 	ks := make([]int, 0, n)
 	for i := 0; i < n; i++ {
-		ks = append(ks, chunkMenu[rng.Intn(len(chunkMenu))])
+		k := chunkMenu[rng.Intn(len(chunkMenu))]
+		if k == -20 { // one of the sentinel endings, after or with the last bytes
+			k = -20 - rng.Intn(2*len(endErrs))
+		}
+		ks = append(ks, k)
 	}
 	return ks
 }
@@ -1218,23 +1332,64 @@ func emptied(rng *rand.Rand, W *bytex.BufferX) string {
 func runHistory(w *tr.W, rng *rand.Rand, i int, maxItems int) {
 	k := &sink{w: w, lazy: i%2 == 1}
 	protect(k, func() {
-		W := newBuffer(rng)
+		W, capHint := newBuffer(rng)
 		how := "new"
-		for life, nlife := 0, 1+rng.Intn(3); life < nlife && !halted; life++ {
-			m := maxItems
-			if life > 0 {
-				m = maxItems/2 + 1
+		switch {
+		case i%25 == 7: // long runs of one operation around 2^8
+			longRun(start(k, rng, "hist", W, how), rng, 255+(i/25)%3)
+			return
+		case i%50 == 19: // ... and of whole write / read / empty cycles of one buffer
+			for c, n := 0, 255+(i/50)%3; c < n && !halted; c++ {
+				s := start(k, rng, "hist", W, how)
+				v, lim := randItem(rng, false)
+				s.doWrite(v, lim)
+				s.doOpen(s.W.Len(), []int{}, true)
+				s.readBack(false, -1, false)
+				how = emptied(rng, W)
 			}
-			lifetime(start(k, rng, "hist", W, how), rng, i, m, life)
+			return
+		}
+		seed, m := rng.Int63(), maxItems
+		for life, nlife := 0, 1+rng.Intn(3); life < nlife && !halted; life++ {
+			// a later lifetime is a new one or - one time in four - the same one again
+			// (same writes, same opens, same reads) on the recycled buffer
+			if life > 0 && rng.Intn(4) != 0 {
+				seed, m = rng.Int63(), maxItems/2+1
+			}
+			lr := rand.New(rand.NewSource(seed))
+			lifetime(start(k, lr, "hist", W, how), lr, i, m, life, capHint)
 			how = emptied(rng, W)
 		}
 	})
 }
 
-func lifetime(s *sess, rng *rand.Rand, i int, maxItems int, life int) {
+// longRun: cnt (255, 256, 257) items of one small type written, read back on a copy through two
+// stream readers and then on the buffer itself.
+func longRun(s *sess, rng *rand.Rand, cnt int) {
+	t := []string{"u8", "bool", "vu64", "str", "u16"}[rng.Intn(5)]
+	for j := 0; j < cnt; j++ {
+		v := val{t: t, u: uint64(j % 2)}
+		switch t {
+		case "u8", "vu64", "u16":
+			v.u = uint64(j % 251)
+		case "str":
+			v.b = []byte{byte(j)}[:j%2]
+		}
+		s.doWrite(v, -1)
+	}
+	s.doOpen(s.W.Len(), randKs(rng, 2), false)
+	s.readBack(false, -1, false)
+	s.doOpen(s.W.Len(), []int{}, true)
+	s.readBack(false, -1, false)
+}
+
+func lifetime(s *sess, rng *rand.Rand, i int, maxItems int, life int, capHint int) {
 	n := rng.Intn(maxItems) + 1
 	switch rng.Intn(12) {
-	case 0: // nothing is written: every read of the fresh / recycled buffer is refused
+	case 0: // nothing is written: a rewrite addresses nothing, every read is refused
+		if rng.Intn(2) == 0 {
+			s.doRewrite([]string{"p", "u32"}[rng.Intn(2)], 0, randBytes(rng, rng.Intn(3)), 7)
+		}
 		s.doOpen(0, randKs(rng, 2), true)
 		s.readBack(false, -1, false)
 		return
@@ -1260,18 +1415,33 @@ func lifetime(s *sess, rng *rand.Rand, i int, maxItems int, life int) {
 		v, lim := randItem(rng, big)
 		if block && (j == 0 || rng.Intn(2) == 0) {
 			v, lim = val{t: []string{"str", "str", "raw"}[rng.Intn(3)], b: randBytes(rng, blockLen(rng))}, -1
+			if j == 0 && i%4 == 2 { // the items behind it straddle offset 2^16
+				v.b = randBytes(rng, 65536-4-rng.Intn(12))
+			}
 			if v.t == "str" && rng.Intn(3) == 0 {
 				lim = limFor(rng, len(v.b))
+			}
+		}
+		if len(s.items) > 0 && rng.Intn(10) == 0 { // the value just written, once more
+			prev := s.items[len(s.items)-1].v
+			if len(prev.b) <= refLen {
+				v, lim = val{t: prev.t, u: prev.u, b: append([]byte{}, prev.b...)}, -1
 			}
 		}
 		if i%7 == 3 && j == 1 {
 			v, lim = randVal(rng, "u32"), -1 // the placeholder idiom: u32 slot patched later
 		}
 		s.doWrite(v, lim)
+		if v.t == "raw" && rng.Intn(4) == 0 {
+			s.writeSame() // the same slice passed again
+		}
 		if nrw > 0 && len(s.items) > 0 && rng.Intn(n) < 2 {
 			s.randomRewrite(0)
 			nrw--
 		}
+	}
+	if fill := capHint - s.W.Len(); life == 0 && fill > 0 && fill <= 300 && rng.Intn(3) == 0 {
+		s.doWrite(val{t: "raw", b: randBytes(rng, fill)}, -1) // exactly full
 	}
 	total := s.W.Len()
 	// truncation points: all of them for short streams, else boundaries +-1 and a sample
@@ -1419,7 +1589,8 @@ func main() {
 		for g := 0; g < len(files) && !halted; g += 3 {
 			k := &sink{w: w, lazy: (g/3)%2 == 1}
 			protect(k, func() {
-				W, how := newBuffer(rng), "new"
+				W, _ := newBuffer(rng)
+				how := "new"
 				end := g + 3
 				if end > len(files) {
 					end = len(files)
